@@ -283,7 +283,7 @@ impl<'c, 'a, 'w> PGen<'c, 'a, 'w> {
                             return E::Subscript(Box::new(l), Box::new(lit_i(self.ch.below(3) as i64)));
                         }
                     }
-                    if let Some(p) = self.prop_of(&["i0", "i1", "ov"], &T::Int, d) {
+                    if let Some(p) = self.prop_of(&["i0", "i1", "ov", "ro"], &T::Int, d) {
                         return p;
                     }
                 }
@@ -777,7 +777,12 @@ impl<'c, 'a, 'w> PGen<'c, 'a, 'w> {
                     let c: Vec<usize> = self.scope.iter().copied().filter(|i| self.assigned.contains(i)).collect();
                     if let Some(&outer) = c.first().map(|_| self.ch.pick(&c)) {
                         let ty = self.value_type_for_local();
+                        // (the initialiser does not mention the name it is about to shadow)
+                        let scope_all = self.scope.clone();
+                        let oname = self.locals[outer].name.clone();
+                        self.scope.retain(|i| self.locals[*i].name != oname);
                         let init = self.expr(&ty, 1);
+                        self.scope = scope_all;
                         if matches!(strip_parens(&init), E::Null | E::EmptyList(_)) || (ty == T::Uint && is_const_int(&init)) {
                             continue;
                         }
@@ -897,7 +902,11 @@ impl<'c, 'a, 'w> PGen<'c, 'a, 'w> {
                 // mostly the type of the outer variable, so that a later read type-checks either way
                 let oty = self.locals[outer].ty.clone();
                 let ty = if matches!(oty, T::Int | T::Str | T::Bool | T::Double) && self.ch.chance(3, 4) { oty } else { self.ch.pick(&[T::Int, T::Str, T::Bool]).clone() };
+                let scope_all = self.scope.clone();
+                let oname = self.locals[outer].name.clone();
+                self.scope.retain(|i| self.locals[*i].name != oname);
                 let init = self.expr(&ty, 1);
+                self.scope = scope_all;
                 shadowed_outer = Some(outer);
                 let inner = self.new_local(ty, Some(outer));
                 let name = self.locals[inner].name.clone();
@@ -973,8 +982,17 @@ impl<'c, 'a, 'w> PGen<'c, 'a, 'w> {
                 self.assigned.insert(n);
                 out.push(S::Decl(n, false, false, Some(E::Local(o))));
                 self.must_use = Some(n);
+                // in a handler the value is made observable through a log call
+                if self.handler && matches!(self.locals[n].ty, T::Int | T::Str | T::Bool) {
+                    self.ch.label("handler-logs-variable-shadowed-in-case");
+                    out.push(S::Expr(E::ConsoleLog("log", vec![E::Local(n)])));
+                }
             } else {
                 self.must_use = Some(o);
+                if self.handler && matches!(self.locals[o].ty, T::Int | T::Str | T::Bool) {
+                    self.ch.label("handler-logs-variable-shadowed-in-case");
+                    out.push(S::Expr(E::ConsoleLog("log", vec![E::Local(o)])));
+                }
             }
         }
     }
@@ -1178,6 +1196,67 @@ impl<'c, 'a, 'w> PGen<'c, 'a, 'w> {
                 bodies[p + 1] = if p + 2 == nb && self.ch.chance(1, 2) { vec![S::Expr(lit)] } else { vec![S::Expr(lit), S::Break] };
             }
         }
+        let mut wrap_decl: Option<S> = None;
+        // directed shape, one switch in five: a clause declares a variable (shadowing an outer one when
+        // there is one of the tail type) and falls through into a clause whose value reads it - the
+        // clauses of a switch share one scope. Entering at the second clause leaves the variable
+        // unassigned, which the reference semantics reports as undefined (such states are dropped).
+        if nb >= 2 && self.opts.allow.let_in_case && matches!(t, T::Int | T::Str | T::Bool | T::Double) && self.ch.chance(1, 5) {
+            let p = self.ch.below(nb - 1);
+            let mut outers: Vec<usize> = self.scope.iter().copied().filter(|i| self.assigned.contains(i) && self.locals[*i].ty == *t).collect();
+            // no variable of the tail type around: declare one in a block around the switch
+            if outers.is_empty() && self.ch.chance(2, 3) {
+                let init0 = self.expr(t, 1);
+                let o = self.new_local(t.clone(), None);
+                self.scope.push(o);
+                self.assigned.insert(o);
+                wrap_decl = Some(S::Decl(o, false, false, Some(init0)));
+                outers.push(o);
+            }
+            let shadow = if !outers.is_empty() && self.ch.chance(3, 4) { Some(*self.ch.pick(&outers)) } else { None };
+            // the other clauses were generated with the outer variable in mind: when one of them (or the
+            // switch value) mentions the name, it would denote the inner variable after the declaration -
+            // then a fresh name is used instead of a shadowing one
+            let shadow = shadow.filter(|o| {
+                let name = self.locals[*o].name.clone();
+                let mut mentioned = false;
+                let mut probe = |e: &mut E| -> bool {
+                    if let E::Local(i) = e {
+                        if self.locals[*i].name == name {
+                            mentioned = true;
+                        }
+                    }
+                    false
+                };
+                for (k, b) in bodies.iter().enumerate() {
+                    if k != p && k != p + 1 {
+                        for st in b.clone().iter_mut() {
+                            map_stmt(st, &mut probe);
+                        }
+                    }
+                }
+                map_expr(&mut value.clone(), &mut probe);
+                !mentioned
+            });
+            // neither the initialiser nor the other operand may mention the shadowed name (in the clauses
+            // it denotes the inner variable, in its own initialiser it is in its dead zone)
+            let scope_before = self.scope.clone();
+            if let Some(o) = shadow {
+                let n = self.locals[o].name.clone();
+                self.scope.retain(|i| self.locals[*i].name != n);
+            }
+            let init = self.expr(t, 2);
+            let inner = self.new_local(t.clone(), shadow);
+            self.ch.label(if shadow.is_some() { "case-declaration-shadows-outer-and-is-read-in-next-clause" } else { "case-declaration-read-in-next-clause" });
+            let other = self.expr(t, 1);
+            self.scope = scope_before;
+            let op = match t {
+                T::Bool => BinOp::Or,
+                _ => BinOp::Add,
+            };
+            bodies[p] = vec![S::Decl(inner, false, false, Some(init))];
+            bodies[p + 1] = vec![S::Expr(E::Bin(op, Box::new(E::Local(inner)), Box::new(other))), S::Break];
+        }
         let mut pool = vec![];
         let mut cases = vec![];
         let mut default = None;
@@ -1189,7 +1268,10 @@ impl<'c, 'a, 'w> PGen<'c, 'a, 'w> {
                 cases.push((label, body));
             }
         }
-        S::Switch(value, cases, default)
+        match wrap_decl {
+            Some(d) => S::Block(vec![d, S::Switch(value, cases, default)]),
+            None => S::Switch(value, cases, default),
+        }
     }
 
     // ---- handlers ---------------------------------------------------------------------------
